@@ -707,10 +707,13 @@ def _senses(prog, rep):
         other = [(l, src(v)) for l, v in events if (l, core(v)) not in rowev and (l, core(v)) not in conev]
         cls[sense] = (rowev, conev, other)
     missing = sorted(s_ for s_, (r, c, o) in cls.items() if not r and not c)
+    if len(missing) == len(cls):
+        rep.undecided("extract_constraints: no sense is seen to file a (row, rhs) pair -- the routing is written in a form this rule cannot read")
+        return
     rep.ob("R05.4", "extract_constraints", not missing, "all three senses are handled" if not missing else f"sense(s) {missing} fall through silently: those constraints vanish from the LP", loc=ec.loc, detail="all-senses")
     # the returned blocks
     rets = [r.value for r in walk_local(ec.node) if isinstance(r, ast.Return) and r.value is not None]
-    lists = sorted({l for evs_ in table.values() for l, _v in evs_})
+    lists = sorted({l for evs_ in table.values() for l, _v in evs_} | {nm for nm, vs in local_assignments(ec.node).items() if any(isinstance(v, ast.List) and not v.elts for v in vs)})
     blocks = None
     if len(rets) == 1 and isinstance(rets[0], ast.Tuple) and len(rets[0].elts) == 4:
         assigns = local_assignments(ec.node)
@@ -731,6 +734,9 @@ def _senses(prog, rep):
     if blocks is None or any(len(b_) != 1 for b_ in blocks) or len({next(iter(b_)) for b_ in blocks}) != 4:
         if blocks is None:
             rep.undecided("extract_constraints: the returned 4-tuple of blocks not found")
+            return
+        if any(len(b_) == 0 for b_ in blocks):
+            rep.undecided(f"extract_constraints: which list each returned block is built from is not readable ({[sorted(b_) for b_ in blocks]})")
             return
         rep.ob("R05.4", "extract_constraints", False, f"the four returned blocks are built from {[sorted(b_) for b_ in blocks]}: not one list each", loc=ec.loc, detail="assembly")
         return
@@ -833,9 +839,17 @@ def _alignment(prog, rep):
                     origin[tg.id] = (f, None)
         want = {"c": ("extract_objective", 0), "sense": ("extract_objective", 1), "A_ub": ("extract_constraints", 0), "b_ub": ("extract_constraints", 1), "A_eq": ("extract_constraints", 2), "b_eq": ("extract_constraints", 3), "bounds": ("extract_bounds", None)}
         bad = []
+        unk = []
         for fld, w in want.items():
             v = fields.get(fld)
-            got = origin.get(v.id) if isinstance(v, ast.Name) else None
-            if got != w:
-                bad.append(f"{fld} <- {src(v)[:30] if v is not None else 'missing'} ({got})")
-        rep.ob("R05.5", "extract", not bad, "LPData fields are filled from the values extracted for them (c, sense | A_ub, b_ub, A_eq, b_eq | bounds)" if not bad else f"LPData fields are not filled one-to-one from the extracted values: {bad[0]}", loc=f"{ex.module.rel}:{lp_calls[0].lineno}", detail="fields")
+            got = origin.get(v.id) if isinstance(v, ast.Name) else ((src(v.func).split(".")[-1], None) if isinstance(v, ast.Call) else None)
+            if got == w:
+                continue
+            if got is None or got[0] not in {x[0] for x in want.values()}:
+                unk.append(f"{fld} <- {src(v)[:30] if v is not None else 'not visible'}")
+            else:
+                bad.append(f"{fld} <- {src(v)[:30]} (value {got[1] if got[1] is not None else ''} of {got[0]})")
+        if unk and not bad:
+            rep.undecided(f"extract: where LPData field(s) come from is not readable ({'; '.join(unk[:2])})")
+        else:
+          rep.ob("R05.5", "extract", not bad, "LPData fields are filled from the values extracted for them (c, sense | A_ub, b_ub, A_eq, b_eq | bounds)" if not bad else f"LPData fields are not filled one-to-one from the extracted values: {bad[0]}", loc=f"{ex.module.rel}:{lp_calls[0].lineno}", detail="fields")
